@@ -23,7 +23,8 @@ import time
 
 ROOT = os.path.dirname(os.path.abspath(__file__))
 REPO = os.environ.get("VERIF_REPO", "/repo")
-BUILD = os.path.join(ROOT, "build")
+# binaries built from another tree than /repo (self-validation against scratch copies) get their own cache directory
+BUILD = os.path.join(ROOT, "build") if REPO == "/repo" else os.path.join(ROOT, "build", "alt-" + hashlib.sha1(REPO.encode()).hexdigest()[:8])
 JOBS = int(os.environ.get("VERIF_JOBS", "16"))
 SEED = int(os.environ.get("VERIF_SEED", "1"))
 
@@ -122,7 +123,7 @@ FLAVOURS = {
 RUN_ENV = {
     "ASAN_OPTIONS": "abort_on_error=1:detect_leaks=0:allocator_may_return_null=1:handle_abort=0:detect_stack_use_after_return=0:max_free_fill_size=256:malloc_fill_byte=190",
     "UBSAN_OPTIONS": "print_stacktrace=1:abort_on_error=1:halt_on_error=1",
-    "TSAN_OPTIONS": "halt_on_error=0:second_deadlock_stack=1:report_signal_unsafe=0",
+    "TSAN_OPTIONS": "halt_on_error=0:exitcode=0:report_signal_unsafe=0:history_size=4",
 }
 
 _tree_hash_cache = {}
@@ -260,6 +261,20 @@ def innermost_cntgs_frame(err):
     return ""
 
 
+def parse_tsan(unit, se, case):
+    """One event per ThreadSanitizer report; reports without a cntgs:: frame are the harness's (or libstdc++'s) own."""
+    reports = re.split(r"(?m)^==================$", se)
+    for rep in reports:
+        m = re.search(r"WARNING: ThreadSanitizer: ([a-z -]+)", rep)
+        if not m:
+            continue
+        frames = re.findall(r"#\d+ (?:0x[0-9a-f]+ in )?([^\n]+)", rep)
+        cn = [f for f in frames if "cntgs::" in f or "/src/cntgs/" in f]
+        top = re.sub(r"<.*", "", cn[0]) if cn else (frames[0] if frames else "")
+        unit.events.append({"t": "viol", "case": case, "step": 0, "props": "C19" if cn else "HARNESS", "kind": "tsan:" + m.group(1).strip().replace(" ", "-"),
+                            "op": "concurrent_const_use", "pre": "shared", "x": "", "frame": top[:200], "detail": rep.strip()[:3000], "unit": unit.label})
+
+
 class Unit:
     """One binary + arguments, run over a range of cases in batches."""
 
@@ -337,6 +352,8 @@ def run_batch(unit, lo, hi, timeout=150):
                 bail = r["next"]
             elif t == "harness_error":
                 unit.errors.append(r.get("what", "harness_error"))
+        if "ThreadSanitizer" in se:
+            parse_tsan(unit, se, open_case if open_case is not None else lo)
         if p.returncode == 0 and not hang:
             if bail is not None and bail < hi:
                 cur = bail
@@ -436,7 +453,10 @@ def event_props(ev):
 
 
 def signature(prop, ev):
-    return "%s|%s|%s|%s" % (prop, ev.get("unit", "").split("|")[0], ev.get("kind", ""), ev.get("op", ""))
+    sig = "%s|%s|%s|%s" % (prop, ev.get("unit", "").split("|")[0], ev.get("kind", ""), ev.get("op", ""))
+    if ev.get("kind", "").startswith("tsan:"):
+        sig += "|" + re.sub(r"[^A-Za-z_:]", "", ev.get("frame", ""))[:80]
+    return sig
 
 
 def conclude(prop, tier, level, units, build_errors, rule, t0, extra_cov=None, min_nontrivial=2, assumptions=None, require_ops=()):
